@@ -141,6 +141,47 @@ pub fn check_in_process(bytes: &[u8], st: &mut Stats) -> Result<String, Fail> {
             return Err(Fail::new("history-dependent", format!("after a write into a sink that fails after {limit} bytes, the next write of the same mapping differs ({} vs {} bytes)", again.len(), a.len())));
         }
     }
+    // ... nor of which object the mapping was derived from: a section taken after the parent was written
+    if bytes.len() > 4 && bytes.len() < 200_000 {
+        let cuts: Vec<usize> = std::iter::once(0).chain(bytes.iter().enumerate().filter(|(_, c)| **c == b'\n').map(|(i, _)| i + 1)).chain(std::iter::once(bytes.len())).collect();
+        let (lo, hi) = (cuts[cuts.len() / 3], cuts[(2 * cuts.len() / 3).max(cuts.len() / 3)]);
+        for (s, e) in [(lo, hi), (0, hi), (lo, bytes.len())] {
+            if s >= e {
+                continue;
+            }
+            st.evaluations += 1;
+            let via_section = guarded(|| {
+                let parent = proguard::ProguardMapping::new(bytes);
+                let mut sink = Vec::new();
+                let _ = proguard::ProguardCache::write(&parent, &mut sink);
+                let _ = parent.has_line_info();
+                let sec = parent.section(s..e);
+                let mut out = Vec::new();
+                proguard::ProguardCache::write(&sec, &mut out).map(|_| out).map_err(|e| e.to_string())
+            })
+            .and_then(|r| r)
+            .map_err(|e| Fail::new("write-error", e))?;
+            let direct = write_once(&bytes[s..e]).map_err(|e| Fail::new("write-error", e))?;
+            if via_section != direct {
+                return Err(Fail::new("section-dependent", format!("writing section({s}..{e}) of a mapping that was itself written before gives {} bytes, writing the same bytes as a new mapping gives {}", via_section.len(), direct.len())));
+            }
+            // and the other order: section first, then the parent
+            let parent_after = guarded(|| {
+                let parent = proguard::ProguardMapping::new(bytes);
+                let sec = parent.section(s..e);
+                let mut sink = Vec::new();
+                let _ = proguard::ProguardCache::write(&sec, &mut sink);
+                let _ = sec.has_line_info();
+                let mut out = Vec::new();
+                proguard::ProguardCache::write(&parent, &mut out).map(|_| out).map_err(|e| e.to_string())
+            })
+            .and_then(|r| r)
+            .map_err(|e| Fail::new("write-error", e))?;
+            if parent_after != a {
+                return Err(Fail::new("section-dependent", format!("writing a mapping after one of its sections was written gives {} bytes instead of {}", parent_after.len(), a.len())));
+            }
+        }
+    }
     // 8 concurrently running threads
     let results: Vec<Result<String, String>> = std::thread::scope(|sc| {
         let hs: Vec<_> = (0..8).map(|_| sc.spawn(|| write_once(bytes).map(|v| digest(&v)))).collect();
